@@ -266,12 +266,15 @@ closed:
 		err = clnt.err
 	}
 	clnt.Unlock()
-	for ; r != nil; r = r.next {
+	for r != nil {
+		/* its owner may reuse the request as soon as it gets it */
+		next := r.next
 		r.Err = err
 		if r.Done != nil {
 			r.Done <- r
 		}
 		verifPoint("crecv.delivered", clnt)
+		r = next
 	}
 
 	clnts.Lock()
